@@ -327,6 +327,39 @@ def rename_files(src):
     return ''.join(out) if hit and i == len(src) else None
 
 
+def multiline_container_without_comma(text):
+    """Is there an array or dict literal that starts a new line right after its opening bracket and whose last element is
+    not followed by a comma?  The formatter never leaves one behind on purpose: only the argument list of a call with a
+    single argument may lose its trailing comma (no_single_comma_function)."""
+    stack = []
+    prev = None
+    for m in reflang._TOK.finditer(text):
+        k = m.lastgroup
+        if k in ('ws', 'cont', 'comment'):
+            continue
+        t = m.group()
+        if k == 'nl':
+            if stack and stack[-1]['n'] == 0:
+                stack[-1]['ml'] = True
+            continue
+        if stack:
+            stack[-1]['n'] += 1
+        if k == 'op' and t in '([{':
+            is_call = t == '(' and prev is not None and prev[0] == 'id'
+            stack.append({'open': t, 'call': is_call, 'n': 0, 'ml': False, 'last': None})
+        elif k == 'op' and t in ')]}':
+            if stack:
+                fr = stack.pop()
+                if fr['open'] in '[{' and fr['ml'] and fr['n'] > 1 and fr['last'] != ',':
+                    return True
+            if stack:
+                stack[-1]['last'] = 'x'
+        elif stack:
+            stack[-1]['last'] = ',' if (k == 'op' and t == ',') else 'x'
+        prev = (k, t)
+    return False
+
+
 def has_files(src):
     return rename_files(src) is not None
 
@@ -404,14 +437,14 @@ def missing_operand(src):
     return 'missing-operand' if rec(t) else None
 
 
-def idem_causes(src, cfg):
+def idem_causes(src, cfg, out=''):
     """Known mechanisms behind a missing fixed point: (key suffix, description, neutraliser (src, cfg) -> (src, cfg))."""
     causes = []
     if has_cont_in_brackets(src):
         causes.append(('continuation-in-brackets',
                        'a backslash line continuation inside brackets needs more than one format run to reach a fixed point',
                        lambda s, c: (neutralise_cont(s), c)))
-    if cfg.get('no_single_comma_function'):
+    if cfg.get('no_single_comma_function') and not multiline_container_without_comma(out):
         causes.append(('no-single-comma-function',
                        'no_single_comma_function: the run that removes the comma of a single-argument call keeps it multi-line, '
                        'the next run joins it',
@@ -458,7 +491,7 @@ def classify(kind, detail, src, cfg, out, ref=True):
             return ('C16:comments:lost:files-flatten',
                     'comment attached to the brackets of the array in files([...]) is dropped by the flattening')
     if kind == 'idem':
-        causes = idem_causes(src, cfg)
+        causes = idem_causes(src, cfg, out)
         for name, what, fn in causes:
             s2, c2 = fn(src, cfg)
             if not still('idem', s2, c2, ref):
